@@ -19,8 +19,10 @@ import (
 	"os/signal"
 	"path/filepath"
 	"regexp"
+	"strconv"
 	"strings"
 	"syscall"
+	"time"
 
 	"verif/internal/evid"
 )
@@ -121,7 +123,26 @@ func supervise(id, tier string, seed int64, level string) int {
 			cmd.Process.Signal(s) // e.g. the QUIT of a watchdog: the child prints its goroutine dump
 		}
 	}()
+	// global watchdog: a check that does not finish at all (a library call that never
+	// returns on a goroutine without its own watchdog) is stopped with QUIT so that the
+	// dump shows where; generous, and never a verdict by itself
+	limit := 45 * time.Minute
+	if tier != "quick" {
+		limit = 8 * time.Hour
+	}
+	if v := os.Getenv("VERIF_WATCHDOG_S"); v != "" {
+		if n, err := strconv.Atoi(v); err == nil && n > 0 {
+			limit = time.Duration(n) * time.Second
+		}
+	}
+	timedOut := false
+	wd := time.AfterFunc(limit, func() {
+		timedOut = true
+		cmd.Process.Signal(syscall.SIGQUIT)
+		time.AfterFunc(20*time.Second, func() { cmd.Process.Kill() })
+	})
 	runErr := cmd.Wait()
+	wd.Stop()
 	signal.Stop(sigs)
 	pw.Close()
 	<-done
@@ -141,6 +162,31 @@ func supervise(id, tier string, seed int64, level string) int {
 	repo := os.Getenv("VERIF_REPO")
 	if repo == "" {
 		repo = "/repo"
+	}
+	if timedOut {
+		// where is the check's main goroutine? Blocked inside the library => for the
+		// properties that are about never hanging (C11, C14) that is the violation
+		main := ""
+		for _, g := range strings.Split(string(b), "\n\n") {
+			if strings.HasPrefix(g, "goroutine 1 ") {
+				main = g
+			}
+		}
+		inLib := strings.Contains(main, repo+"/") && (id == "C11" || id == "C14")
+		if inLib {
+			c := evid.New(id, tier, seed, level)
+			c.Rule("process supervision only: the check did not finish within the global watchdog", "crashes", "crash_sites")
+			c.Count("crashes", 1)
+			c.Distinct("crash_sites", "timeout")
+			c.Distinct("crash_sites", "main goroutine blocked in library")
+			if len(main) > 6000 {
+				main = main[:6000]
+			}
+			c.Violation(id+":process-hang", fmt.Sprintf("the check did not finish within %v; its main goroutine is blocked inside the library", limit), map[string]any{"stack": main})
+			return c.Finish()
+		}
+		fmt.Printf("HARNESS-ERROR property=%s the check did not finish within %v and was stopped (dump: %s)\n", id, limit, crashLog)
+		return 2
 	}
 	kind, fn, file, lib, found := crashOrigin(string(b), repo)
 	if !found || !lib {
